@@ -541,7 +541,8 @@ func checkC16(p *Prog, res *Result, tier string) {
 	// ---- R6: the Range answer is the complete snapshot (C13-R5/R6/R8) ----
 	sub13 := p.subResult("C13", tier)
 	for _, o := range sub13.Obls {
-		if o.Rule == "C13-R5" || o.Rule == "C13-R6" || o.Rule == "C13-R8" {
+		// (and ordered as etcd orders it: partition results are merged in partition order, C13-R3)
+		if o.Rule == "C13-R5" || o.Rule == "C13-R6" || o.Rule == "C13-R8" || o.Rule == "C13-R3" {
 			res.add("C16-R6", o.Rule+" "+o.Construct, o.Status, o.Pos, o.Detail)
 		}
 	}
